@@ -9,6 +9,9 @@ denotes, C01) the expected *lines* are written down directly from the statement:
 The observation is emmet.expand(abbr, {'syntax': haml|pug|slim, 'options': {'output.indent': ...}}).
 Independently of the expected lines, the element tree is recovered from the produced lines by their
 indentation alone and compared with the tree of the HTML output for the same abbreviation.
+Besides the small decorations, three clauses widen two dimensions: the number of classes of one element
+(0..20 and a few large counts) and the kind of line break between text lines (LF, CR LF, bare CR and every
+mixture): a text line ends at any of the three (text_lines()).
 """
 import random
 import re
@@ -25,6 +28,17 @@ NAMES = ['div', 'ul', 'p', 'em', 'table', 'tr', 'span', 'div', 'ol', 'section', 
 
 
 # ----------------------------------------------------------------------------- expected lines
+LINE_BREAK = re.compile(r'\r\n|\r|\n')
+
+
+def text_lines(text):
+    """the lines of a text: a line break is CR LF, a bare CR or a bare LF -- the three line terminators of
+    text files (the statement speaks of "text lines" without naming one terminator; the package's own HTML
+    output and output stream break a text at exactly these three).  Other characters str.splitlines() knows
+    (FF, VT, U+2028, ...) are never generated."""
+    return LINE_BREAK.split(text)
+
+
 def denote_full(items, parent=''):
     """forest of {'name','named','id','cls','attrs','text','children'} denoted by the AST"""
     out = []
@@ -72,12 +86,12 @@ def expected_lines(forest, syntax, depth=0):
         else:
             head = ('%' if syntax == 'haml' else '') + nd['name'] + primary
         line = head + attribute_list(nd['attrs'], syntax)
-        text_lines = nd['text'].split('\n') if nd['text'] is not None else []
-        if len(text_lines) == 1:
-            line += ' ' + text_lines[0]
+        text_lines_ = text_lines(nd['text']) if nd['text'] is not None else []
+        if len(text_lines_) == 1:
+            line += ' ' + text_lines_[0]
         out.append(('element', depth, line))
-        if len(text_lines) > 1:
-            for t in text_lines:
+        if len(text_lines_) > 1:
+            for t in text_lines_:
                 out.append(('text', depth + 1, t))
         out += expected_lines(nd['children'], syntax, depth + 1)
     return out
@@ -209,7 +223,7 @@ def check_indent_loose(ast, indent, strict_heads):
         for nd in fr:
             if nd['text'] is not None:
                 # (stripped: the greedy indentation split may eat blanks / tabs a text line starts with)
-                texts.update(t.strip(' \t') for t in nd['text'].split('\n') if t.strip(' \t'))
+                texts.update(t.strip(' \t') for t in text_lines(nd['text']) if t.strip(' \t'))
             collect(nd['children'])
     collect(forest)
     for syntax in SYNTAXES:
@@ -223,7 +237,7 @@ def check_indent_loose(ast, indent, strict_heads):
                     primary = ('#' + nd['id'] if nd['id'] is not None else '') + ''.join('.' + c for c in nd['cls'])
                     head = primary if nd['name'] == 'div' and primary else ('%' if syntax == 'haml' else '') + nd['name'] + primary
                     head += attribute_list(nd['attrs'], syntax)
-                    own = nd['text'].split('\n') if nd['text'] is not None else []
+                    own = text_lines(nd['text']) if nd['text'] is not None else []
                     elements.append((depth, head, own[0] if len(own) == 1 else None, nd['close'], own if len(own) > 1 else []))
                     flat(nd['children'], depth + 1)
                 else:
@@ -437,15 +451,149 @@ def random_cases(seed, count):
         yield (ast, rng.choice(INDENTS + [' ', '\t\t', '   ']))
 
 
+# ----------------------------------------------------------------------------- wide heads, line-break kinds
+CLASS_COUNTS = list(range(0, 21)) + [33, 65, 130, 260]
+CLASS_FORMS = ['u%d', 'k-%d', 'm_%d', 'col-md-%d', 'X%dy']
+BREAKS = ['\n', '\r\n', '\r']
+
+
+def class_names(n, shift=0):
+    """n distinct class names without blanks; the form rotates with the position"""
+    return [CLASS_FORMS[(i + shift) % len(CLASS_FORMS)] % i for i in range(n)]
+
+
+def wide_extra(k, j):
+    return [{}, {'attrs': [['title', 't%d' % j]]}, {'text': 'T%d w' % j}, {'text': 'La%d\nLb%d' % (j, j)}][k % 4]
+
+
+def class_count_cases():
+    """every class count of CLASS_COUNTS x 4 name kinds x with / without id x 5 positions in a small tree;
+    what else the element carries (nothing / attribute / one-line text / two-line text) rotates with
+    count + position + name kind, the indent string with the case index"""
+    E = G.E
+    idx = 0
+    for n in CLASS_COUNTS:
+        for ni, name in enumerate(['div', 'p', 'section', None]):
+            for with_id in (False, True):
+                if name is None and n == 0 and not with_id:
+                    continue                    # an implicit element needs an id or a class
+                for pos in range(5):
+                    head = dict(wide_extra(n + pos + ni, 1))
+                    if n:
+                        head['cls'] = class_names(n, pos)
+                    if with_id:
+                        head['id'] = 'i1'
+                    if name:
+                        head['name'] = name
+                    x = ['e', head, None, []]
+                    inner = dict(wide_extra(n + pos + ni + 1, 2), cls=class_names((n + 7) % 21 + 1, 2), name='span')
+                    if pos == 0:
+                        ast = [x]
+                    elif pos == 1:
+                        ast = [E('ul', [E('li'), x, E('li')])]
+                    elif pos == 2:
+                        ast = [E('section', [E('p', [['e', dict(head), None, [E('b', text='B'), E('i')]]])]), E('div')]
+                    elif pos == 3:
+                        ast = [G.G([x, E('p')], 2)]
+                    else:
+                        ast = [['e', dict(head), None, [['e', inner, None, [E('em')]], E('i')]], x]
+                    idx += 1
+                    yield (ast, INDENTS[idx % len(INDENTS)])
+
+
+# texts as lists of lines; the separators between the lines range over BREAKS.  (When an empty line stands
+# between a `\r` and a `\n` the two separators read as one CR LF: the expected lines are always taken from
+# the text as written, text_lines(), not from the list it was built from.)
+BREAK_TEXTS = [['La', 'Lb'], ['La', 'Longer b', 'Lc'], ['La', '', 'Lb'], ['', 'La', 'Lb'],
+               [' La', '', '\tLb', ' '], ['La', '  ', 'Lb', '', 'Lc']]
+
+
+def break_texts():
+    import itertools
+    for pieces in BREAK_TEXTS:
+        for seps in itertools.product(BREAKS, repeat=len(pieces) - 1):
+            yield ''.join(p + s for p, s in zip(pieces, seps + ('',)))
+
+
+def line_break_cases():
+    """every text of break_texts() x 4 heads x 4 positions; indent string rotating"""
+    E = G.E
+    idx = 0
+    for text in break_texts():
+        for head in ({'name': 'p'}, {'name': 'div', 'cls': ['c1']}, {'cls': ['c1', 'k']},
+                     {'name': 'span', 'id': 'i1', 'attrs': [['title', 't1']]}):
+            head = dict(head, text=text)
+            x = ['e', head, None, []]
+            xt = ['e', dict(head), None, [E('b', text='B'), E('i')]]
+            for ast in ([x], [E('div', [E('section', [xt, E('i')]), E('blockquote', text='Q')])],
+                        [E('ul', [G.G([x, E('li', text='third')], 2)])], [xt, E('p', [x])]):
+                idx += 1
+                yield (ast, INDENTS[idx % len(INDENTS)])
+
+
+def random_wide_cases(seed, count):
+    """random ASTs of 3..15 elements; every element gets 0..14 classes (a third of them 9 and more), an id,
+    attributes and a text of 1..5 lines separated by random line breaks, each with its own probability"""
+    rng = random.Random(seed * 7919 + 15)
+    words = ['La', 'Longer b', 'x', 'Lc d e', '', '  ', ' s', '\tt']
+    for _ in range(count):
+        ast = G.random_ast(rng, rng.randint(3, 15), names=NAMES, implicit_p=0.0, id_p=0.0, max_mult=6)
+        j = [0]
+
+        def deco(items):
+            for it in items:
+                if it[0] == 'g':
+                    deco(it[2])
+                    continue
+                j[0] += 1
+                head = {}
+                n = rng.choice([0, 1, 2, 3]) if rng.random() < 0.65 else rng.randint(4, 14)
+                if n:
+                    head['cls'] = class_names(n, rng.randrange(5))
+                if rng.random() < 0.3:
+                    head['id'] = 'i%d' % j[0]
+                if rng.random() < 0.25:
+                    head['attrs'] = [['title', 't%d' % j[0]], ['data-n', 'v%d' % j[0]]][:rng.randint(1, 2)]
+                if rng.random() < 0.5:
+                    pieces = [rng.choice(words) for _ in range(rng.randint(1, 5))]
+                    if pieces[-1] == '':
+                        pieces[-1] = 'Z'        # (a text ending in a line break is not generated)
+                    if len(pieces) == 1:
+                        pieces[0] = 'T%d w' % j[0]
+                    kinds = rng.choice([BREAKS, BREAKS, ['\r'], ['\r\n'], ['\r', '\n']])
+                    head['text'] = ''.join(p + (rng.choice(kinds) if i + 1 < len(pieces) else '') for i, p in enumerate(pieces))
+                if rng.random() < 0.7:
+                    head['name'] = rng.choice(NAMES)
+                elif not G.has_attributes(head):
+                    head['cls'] = ['c%d' % j[0]]
+                it[1] = head
+                deco(it[3])
+        deco(ast)
+        yield (ast, rng.choice(INDENTS + [' ', '\t\t', '   ']))
+
+
+def run_sorted(c, fname, cases, chunk):
+    """run_parallel with a deterministic report: the pool delivers violations in arrival order and the
+    default cap is 50, so collect all, sort by input (shortest first), report the first 50"""
+    found = []
+    c.violation = lambda key, what, func, args: found.append({'key': key, 'what': what, 'replay': {'func': func, 'args': args}})
+    run_parallel(c, 'bounded.c15', fname, cases, chunk=chunk)
+    del c.violation
+    found.sort(key=lambda v: (len(v['key']), v['key']))
+    c.violations = found[:50]
+
+
 def run(tier, seed):
     if tier == 'quick':
         plan = [((1, 2, 2), 4), ((2, 2, 2), 4), ((3, 2, 2), 2), ((4, 2, 1), 1), ((5, 1, 1), 1)]
         loose = [((1, 1, 1), 7), ((2, 1, 1), 7), ((3, 1, 1), 7), ((4, 1, 1), 2), ((5, 0, 1), 1)]
         nrand = 800
+        nwide = 300
     else:
         plan = [((1, 2, 2), 4), ((2, 2, 2), 4), ((3, 2, 2), 4), ((4, 2, 2), 2), ((5, 2, 2), 1), ((6, 1, 1), 1)]
         loose = [((1, 2, 2), 7), ((2, 2, 2), 7), ((3, 2, 2), 7), ((4, 2, 2), 7), ((5, 1, 1), 2), ((6, 0, 1), 1)]
         nrand = 30000
+        nwide = 10000
     out = []
     c = Clause('lines-skeleton-exhaustive', 'B',
                'every operator skeleton of the C01 generator (groups, ^ climbs, *2/*3), elements decorated with id / classes / '
@@ -484,6 +632,32 @@ def run(tier, seed):
         found.sort(key=lambda v: v['key'])
         c.violations = found[:250]
         out.append(c.done())
+
+    c = Clause('class-count', 'B',
+               'one element with n classes, n in 0..20, 33, 65, 130, 260 (names without blanks of 5 forms: uN k-N m_N col-md-N XNy) x '
+               '4 name kinds (div, p, section, implicit) x with / without id x 5 positions in a small tree (alone, middle child of ul, '
+               'depth 2 with children, in a group repeated twice, parent of another many-class element + copy); attribute / one-line / '
+               'two-line text rotating; haml, pug, slim; indent rotating over %r' % INDENTS,
+               'complete product as stated (an implicit element needs an id or class: 5 combinations drop out)',
+               'a case is (AST, indent string)', exhaustive=True)
+    run_sorted(c, 'check_indent', class_count_cases(), 50)
+    out.append(c.done())
+
+    c = Clause('line-break-kinds', 'B',
+               'multi-line texts of 2..5 lines (with empty, blank and blank-started lines) whose lines are separated by every '
+               'assignment of LF, CR LF and bare CR to the separators (3 + 9 + 9 + 9 + 27 + 81 texts) x 4 heads (p, div.c1, '
+               'implicit .c1.k, span#i1[title]) x 4 positions (alone, depth 2 with children and siblings, in a repeated group below ul, '
+               'with children + nested copy); haml, pug, slim; indent rotating over %r' % INDENTS,
+               'complete product as stated', 'a case is (AST, indent string); a text line ends at CR LF, CR or LF', exhaustive=True)
+    run_sorted(c, 'check_indent', line_break_cases(), 100)
+    out.append(c.done())
+
+    c = Clause('random-wide-heads-line-breaks', 'B',
+               'seeded random ASTs of 3..15 elements; every element 0..14 classes, id, attributes, text of 1..5 lines with random '
+               'LF / CR LF / CR separators; 7 indent strings',
+               '%d cases, seed %d' % (nwide, seed), 'a case is (AST, indent string)', exhaustive=False)
+    run_sorted(c, 'check_indent', random_wide_cases(seed, nwide), 25)
+    out.append(c.done())
 
     c = Clause('random-large', 'B', 'seeded random ASTs of 5..30 elements with random decorations and 7 indent strings',
                '%d cases, seed %d' % (nrand, seed), 'a case is (AST, indent string)', exhaustive=False)
